@@ -1,9 +1,26 @@
-(* Props/C07.v -- property C07 (statements proved so far; see DESIGN.md section 7 C07). *)
-From Coq Require Import NArith List Bool.
-From NRF Require Import Env.Radio Env.RadioFacts.
+(* Props/C07.v -- property C07 (a network node is listening after every public call).  PARTIAL, see DESIGN.md
+   section 7: proved is the step every network method ends with -- `listen = True` on the driver -- for every
+   world; that every public method of the network layer reaches that step on every path (failures and time-outs
+   included) with the pipe addresses of C04 is decided by the correspondence run and its checker, which
+   evaluates the listening predicate on the world snapshot after EVERY call (corr/c07.py). *)
+From Coq Require Import ZArith NArith List Bool.
+From NRF Require Import Env.Radio Env.World Env.WorldFacts Env.CfgFacts Drv.RF24 Drv.RF24Sim
+     Drv.CfgEval Drv.CtxFacts Drv.PipeFacts.
 Import ListNotations.
-Local Open Scope N_scope.
-Theorem C07_status_is_pre_command : forall r cmd data,
-  hd 0 (snd (spi r (cmd :: data))) = status r.
-Proof. exact spi_status_first. Qed.
-Print Assumptions C07_status_is_pre_command.
+Local Open Scope Z_scope.
+
+(* the epilogue `self._rf24.listen = True`: CE high, PWR_UP|PRIM_RX set, pipe 0 back on the address it was
+   last opened with, TX_ADDR and every other radio's configuration untouched *)
+Theorem C07_listen_epilogue : forall me d w, PInvW me d w ->
+  exists d1 w1, set_listen (WB me) true d w = (Ok tt, d1, w1)
+    /\ let c1 := cview (get_radio w1 me) in
+       c_ce c1 = true
+       /\ N.land (creg c1 0) 3 = 3%N
+       /\ match d_pipe0_read_addr d with
+          | Some img => c_p0 c1 = img /\ N.testbit (creg c1 2) 0 = true
+          | None => N.testbit (creg c1 2) 0 = false
+          end
+       /\ c_tx c1 = c_tx (cview (get_radio w me))
+       /\ (forall j, j <> me -> cview (get_radio w1 j) = cview (get_radio w j)).
+Proof. exact listen_true_world. Qed.
+Print Assumptions C07_listen_epilogue.
